@@ -157,9 +157,9 @@ func runCheck(id, tier, repo, verif string, writeEvidence bool) int {
 	seed := int64(0)
 	fmt.Sscan(os.Getenv("VERIF_SEED"), &seed)
 	P, err := loadProgram(repo, verif)
-	cr := &checkRun{P: P, ps: ps, tier: tier, seed: seed, start: start, timeout: 4000}
+	cr := &checkRun{P: P, ps: ps, tier: tier, seed: seed, start: start, timeout: 10000}
 	if tier == "thorough" {
-		cr.timeout = 20000
+		cr.timeout = 30000
 	}
 	replayDir := filepath.Join(verif, "replay", id)
 	os.RemoveAll(replayDir)
@@ -386,6 +386,10 @@ func runCheck(id, tier, repo, verif string, writeEvidence bool) int {
 	}
 	if writeEvidence {
 		cr.writeEvidenceFull(verif, violations, total, discharged, samples, byKind, bySolver, knownHit, unclaimedHit, inconclusiveCovers)
+	}
+	sort.Slice(cr.results, func(i, j int) bool { return cr.results[i].Res.Ms > cr.results[j].Res.Ms })
+	for i := 0; i < 3 && i < len(cr.results); i++ {
+		fmt.Printf("  slowest: %5dms %-7s %s\n", cr.results[i].Res.Ms, cr.results[i].Res.Solver, cr.results[i].Obl.Name)
 	}
 	fmt.Printf("%s %s: %d obligations, %d discharged, %d known findings, %d unclaimed, %d violations, %.1fs\n", id, tier, total, discharged, len(knownHit), len(unclaimedHit), violations, time.Since(start).Seconds())
 	if violations > 0 {
